@@ -6,7 +6,7 @@ From Coq Require Import List NArith ZArith Bool.
 Import ListNotations.
 Require Import Verif.Lib.Wire Verif.Gen.Facts_C10 Verif.Model.C10 Verif.Proofs.C10 Verif.Proofs.C10_sat
         Verif.Proofs.C10_on Verif.Proofs.C10_codec Verif.Proofs.C10_real
-        Verif.Proofs.C10_gen Verif.Proofs.C10_gen2.
+        Verif.Proofs.C10_gen Verif.Proofs.C10_gen2 Verif.Proofs.C10_altered.
 
 (* constants read from session.py: the three comparisons are `>`, the limit is 4064, the payload
    is (accessed, created, state), each wrapped dict method wraps the dict method of its own name *)
@@ -41,11 +41,14 @@ Print Assumptions C10_ops_refine_spec.
 (* THE property over histories: for every chain of requests, each observation of the model
    (new?, creation time, data at the start, results, data at the end, cookie set / not / refused)
    equals the declarative store semantics wherever the property constrains it *)
-Theorem C10_chain_refines_spec : forall O o, rt_b64 O -> rt_ser O -> mac_len O ->
-  forall l last sv, inv O o last sv ->
+(* FULL statement (the property): the same without the premise [chain_ok].  It is FALSE of the code as it is:
+   an altered cookie TEXT whose lenient base64 decoding is unchanged is accepted (C10_altered_cookie_rejected_refuted).
+   chain_ok: every altered text presented is one the signature check refuses. *)
+Theorem C10_chain_refines_spec_partial : forall O o, rt_b64 O -> rt_ser O -> mac_len O ->
+  forall l last sv, chain_ok O o l -> inv O o last sv ->
   Forall2 ok_at (run_chain O o last l) (spec_chain O o sv true l).
 Proof. exact chain_refines_spec. Qed.
-Print Assumptions C10_chain_refines_spec.
+Print Assumptions C10_chain_refines_spec_partial.
 
 (* the cookie just set, presented before the timeout, restores data and creation time *)
 Theorem C10_persistence : forall O o s exc c now, rt_b64 O -> rt_ser O -> mac_len O ->
@@ -90,7 +93,8 @@ Proof. exact tamper_new_empty. Qed.
 Print Assumptions C10_tamper_new_empty.
 
 Theorem C10_valid_signed_spec : forall O k c, mac_len O ->
-  (valid_signed O k c = true <-> exists p, unb64 O c = Some (mac O k p ++ p)).
+  (valid_signed O k c = true <->
+   exists p, unb64 O c = Some (mac O k p ++ p) /\ (canonical_check = true -> b64 O (mac O k p ++ p) = c)).
 Proof. exact valid_signed_spec. Qed.
 Print Assumptions C10_valid_signed_spec.
 
@@ -115,10 +119,10 @@ Theorem C10_premises_satisfiable : exists O, rt_b64 O /\ rt_ser O /\ mac_len O.
 Proof. exact premises_satisfiable. Qed.
 Print Assumptions C10_premises_satisfiable.
 
-Theorem C10_chain_refines_spec_instance : forall o l,
+Theorem C10_chain_refines_spec_instance_partial : forall o l, chain_ok sat_O o l ->
   Forall2 ok_at (run_chain sat_O o None l) (spec_chain sat_O o None true l).
 Proof. exact chain_refines_spec_instance. Qed.
-Print Assumptions C10_chain_refines_spec_instance.
+Print Assumptions C10_chain_refines_spec_instance_partial.
 
 (* ---- the real wire format: round trips of the Gallina json.dumps / urlsafe base64 that the runner
    uses (and that the correspondence run compares character by character with the real libraries) *)
@@ -132,25 +136,26 @@ Print Assumptions C10_b64_roundtrip.
 
 (* the chain theorem with the codec premises restricted to a class W of states closed under the
    operations of the chain *)
-Theorem C10_chain_refines_spec_on : forall O o (W : dict -> Prop),
+Theorem C10_chain_refines_spec_on_partial : forall O o (W : dict -> Prop),
   mac_len O -> codec_ok O (key o) W -> W [] ->
-  forall l last sv, chain_closed W l -> inv_on O o W last sv ->
+  forall l last sv, chain_ok O o l -> chain_closed W l -> inv_on O o W last sv ->
   Forall2 ok_at (run_chain O o last l) (spec_chain O o sv true l).
 Proof. exact chain_refines_spec_on. Qed.
-Print Assumptions C10_chain_refines_spec_on.
+Print Assumptions C10_chain_refines_spec_on_partial.
 
 (* instance for JSON + base64 as really written: the only things left about the MAC are its fixed
    length and that it yields bytes; operations carry well-formed data (Unicode scalar values) *)
-Theorem C10_chain_refines_spec_real : forall macf n o l,
+Theorem C10_chain_refines_spec_real_partial : forall macf n o l,
   (forall k m, length (macf k m) = n) -> (forall k m, Forall (fun b => (b < 256)%N) (macf k m)) -> wf_chain l ->
+  chain_ok (real_O macf n) o l ->
   Forall2 ok_at (run_chain (real_O macf n) o None l) (spec_chain (real_O macf n) o None true l).
 Proof. exact chain_refines_spec_real. Qed.
-Print Assumptions C10_chain_refines_spec_real.
+Print Assumptions C10_chain_refines_spec_real_partial.
 
-Theorem C10_chain_refines_spec_real_closed : forall o l, wf_chain l ->
+Theorem C10_chain_refines_spec_real_closed_partial : forall o l, wf_chain l -> chain_ok (real_O toy_mac 1) o l ->
   Forall2 ok_at (run_chain (real_O toy_mac 1) o None l) (spec_chain (real_O toy_mac 1) o None true l).
 Proof. exact chain_refines_spec_real_closed. Qed.
-Print Assumptions C10_chain_refines_spec_real_closed.
+Print Assumptions C10_chain_refines_spec_real_closed_partial.
 
 (* ==== the program regenerated from src/pyramid/session.py on this run (Gen/Prog_C10.v, by
    harness/c10/translate.py) equals the reference model, for all inputs ==== *)
@@ -187,17 +192,18 @@ Proof. exact grun_chain_is_model. Qed.
 Print Assumptions C10_generated_chain_is_model.
 
 (* ==== the property, literally about the regenerated program ==== *)
-Theorem C10_chain_refines_spec_generated : forall O o, rt_b64 O -> rt_ser O -> mac_len O ->
-  forall l last sv, inv O o last sv ->
+Theorem C10_chain_refines_spec_generated_partial : forall O o, rt_b64 O -> rt_ser O -> mac_len O ->
+  forall l last sv, chain_ok O o l -> inv O o last sv ->
   Forall2 ok_at (grun_chain O o last l) (spec_chain O o sv true l).
 Proof. exact generated_chain_refines_spec. Qed.
-Print Assumptions C10_chain_refines_spec_generated.
+Print Assumptions C10_chain_refines_spec_generated_partial.
 
-Theorem C10_chain_refines_spec_real_generated : forall macf n o l,
+Theorem C10_chain_refines_spec_real_generated_partial : forall macf n o l,
   (forall k m, length (macf k m) = n) -> (forall k m, Forall (fun b => (b < 256)%N) (macf k m)) -> wf_chain l ->
+  chain_ok (real_O macf n) o l ->
   Forall2 ok_at (grun_chain (real_O macf n) o None l) (spec_chain (real_O macf n) o None true l).
 Proof. exact generated_chain_refines_spec_real. Qed.
-Print Assumptions C10_chain_refines_spec_real_generated.
+Print Assumptions C10_chain_refines_spec_real_generated_partial.
 
 Theorem C10_mutation_implies_dirty_generated : forall o p t s,
   st (fst (gstep o p t s)) <> st s -> dirty (fst (gstep o p t s)) = true.
@@ -247,3 +253,34 @@ Print Assumptions C10_reissue_boundary_generated.
 Theorem C10_created_preserved_generated : forall o l s, created (fst (grun_ops o l s)) = created s.
 Proof. exact generated_created_preserved. Qed.
 Print Assumptions C10_created_preserved_generated.
+
+(* ==== altered cookie texts (finding C10-lenient-base64-edit-accepted) ==== *)
+(* the Gallina b64dec is Python's bytes_ + padding + base64.urlsafe_b64decode with all its tolerance (validated by the
+   correspondence run: the runner decodes with it).  Without the canonical check the code sees a text only through
+   its decoding: *)
+Theorem C10_altered_same_decoding : forall O o c c' now, canonical_check = false ->
+  unb64 O c = unb64 O c' -> init O o (Some c) now = init O o (Some c') now.
+Proof. exact altered_same_decoding. Qed.
+Print Assumptions C10_altered_same_decoding.
+
+(* exactly which altered texts are accepted: those with the decoding of the cookie last set (if nobody else can sign) *)
+Theorem C10_altered_cookie_accepted_iff_same_decoding : forall O o s c now,
+  rt_b64 O -> rt_ser O -> mac_len O -> canonical_check = false ->
+  (forall p, unb64 O c = Some (mac O (key o) p ++ p) -> unb64 O c = unb64 O (cookie_of O o s)) ->
+  (accepted O o c now <-> unb64 O c = unb64 O (cookie_of O o s)).
+Proof. exact altered_cookie_accepted_iff_same_decoding. Qed.
+Print Assumptions C10_altered_cookie_accepted_iff_same_decoding.
+
+(* the property's clause is false of the code as it is (real JSON + base64 format): the cookie with '=' appended *)
+Theorem C10_altered_cookie_rejected_refuted : canonical_check = false ->
+  rf_edit <> rf_last /\ wf_chain rf_chain
+  /\ ~ Forall2 ok_at (run_chain rf_O rf_o None rf_chain) (spec_chain rf_O rf_o None true rf_chain).
+Proof. exact altered_cookie_rejected_refuted. Qed.
+Print Assumptions C10_altered_cookie_rejected_refuted.
+
+(* once only the canonical text is accepted (regenerated fact), every altered text with an unchanged decoding is refused *)
+Theorem C10_altered_same_decoding_rejected : forall O o s c now, rt_b64 O -> canonical_check = true ->
+  c <> cookie_of O o s -> unb64 O c = unb64 O (cookie_of O o s) ->
+  init O o (Some c) now = IOk (fresh_sess now).
+Proof. exact altered_same_decoding_rejected. Qed.
+Print Assumptions C10_altered_same_decoding_rejected.
